@@ -399,3 +399,48 @@ Definition node_status_names (b : bytes) : option (list bytes) :=
 
 (* presentation of a decoded first-level name: trailing spaces removed *)
 Definition present_spaces (raw : bytes) : bytes := rev (strip_right 32 (rev raw)).
+
+(* ------------------------------------------------------------------ *)
+(* RFC 6762 (mDNS) / RFC 4795 (LLMNR): a message as a parser hands it over — header id and QR bit,
+   question names, and the resources of the answer, authority and additional sections in order,
+   each with the owner name in presentation form (labels joined by '.', with the trailing dot)
+   and a typed body.  Host names live under ".local."; a host's address records name it. *)
+Inductive mbody :=
+| MB_A (ip : bytes)            (* 4 octets *)
+| MB_AAAA (ip : bytes)         (* 16 octets *)
+| MB_TXT (txt : list bytes)    (* character strings *)
+| MB_other.                    (* PTR, SRV, OPT, NSEC, unknown: no host name / address *)
+
+Record mres := mkRes { mr_name : bytes; mr_body : mbody }.
+Record mmsg := mkMsg { mm_id : N; mm_response : bool; mm_questions : list bytes; mm_resources : list mres }.
+
+Definition DOT_LOCAL_DOT : bytes := [46; 108; 111; 99; 97; 108; 46].   (* ".local." *)
+
+Fixpoint ends_with_rev (rs rsuf : bytes) : bool :=   (* both reversed *)
+  match rsuf, rs with
+  | [], _ => true
+  | x :: a, y :: b => (x =? y) && ends_with_rev b a
+  | _ :: _, [] => false
+  end.
+Definition ends_with (s suf : bytes) : bool := ends_with_rev (rev s) (rev suf).
+
+(* the host name: the owner without the ".local." suffix (unchanged when it is not under .local.) *)
+Definition local_host_name (fqdn : bytes) : bytes :=
+  if ends_with fqdn DOT_LOCAL_DOT then firstn (length fqdn - 7) fqdn else fqdn.
+
+(* (address, host name) pairs a response announces, in message order *)
+Definition ref_mdns_v4 (rs : list mres) : list (bytes * bytes) :=
+  flat_map (fun r => match mr_body r with MB_A ip => [(ip, local_host_name (mr_name r))] | _ => [] end) rs.
+Definition ref_mdns_v6 (rs : list mres) : list (bytes * bytes) :=
+  flat_map (fun r => match mr_body r with MB_AAAA ip => [(ip, local_host_name (mr_name r))] | _ => [] end) rs.
+
+(* a query (probe) names the querier: the last question under .local. that is not a service name *)
+Definition TCP_LOCAL : bytes := [95; 116; 99; 112; 46; 108; 111; 99; 97; 108; 46].   (* "_tcp.local." *)
+Definition UDP_LOCAL : bytes := [95; 117; 100; 112; 46; 108; 111; 99; 97; 108; 46].   (* "_udp.local." *)
+Definition is_host_question (q : bytes) : bool :=
+  negb (ends_with q TCP_LOCAL) && negb (ends_with q UDP_LOCAL) && ends_with q DOT_LOCAL_DOT.
+Definition ref_query_name (qs : list bytes) : bytes :=
+  match rev (filter is_host_question qs) with
+  | q :: _ => local_host_name q
+  | [] => []
+  end.
